@@ -255,6 +255,8 @@ def run_cases(mod: Any, cases: list[dict], rec: Recorder, ctx: dict, case_timeou
             # an exception escaping the *harness* is not a verdict on ampform
             rec.inconclusive_event("harness exception", traceback.format_exc(limit=8) + repr(exc))
         rec.stratum("case_seconds_decade", _decade(time.time() - t0))
+        if time.time() - t0 > 30:
+            rec.samples["slow_case"].append({"seconds": round(time.time() - t0, 1), "case": jsonable(case)})
         rec.current_case = None
     teardown = getattr(mod, "teardown_worker", None)
     if teardown:
